@@ -21,6 +21,14 @@ def run(chk):
     res = json.load(open(resf))
     for v in res["violations"] or []:
         chk.violation(v["sig"], v["desc"], dict(kind="c10", detail=v))
+    # the batch path: the same mutation shapes grouped into multi requests over two regions (region/multi.go builds one cell
+    # stream for all of them): what the server decodes per action must be that mutation's cells
+    import wirecontent
+    rc = wirecontent.run_content(chk)
+    for v in rc["violations"] or []:
+        if wirecontent.mutation_encoding(v) or v["sig"] == "client-panic":
+            chk.violation("batch-path:" + v["sig"], v["desc"], dict(kind="c10-batch", detail=v))
+    chk.cov["batch_path_operations_decoded"] = rc["distinct"]
     chk.cov["traces_validated_against_impl"] = res["mutations"] + res["kv_vectors"] + res["length_vectors"]
     chk.cov["evaluations"] = res["evaluations"]
     chk.cov["distinct_nontrivial"] = res["distinct"]
